@@ -19,10 +19,10 @@ The model is a pure function, so the two ways a run can depend on something else
   (`GenState.effective`); generated files are read back only through the accessor-interface look-up
   (`C07_stale_indep`).
 
-Fixed since: F_getGoFile (f3054bd: `getGoFile` is a package-scope look-up now; `C07_getGoFile_fixed`).
+Fixed since: F_getGoFile (f3054bd: `getGoFile` is a package-scope look-up now; `C07_getGoFile_fixed`), F_aliasDup (62d8144:
+a duplicate alias is a Fatal in every order; `C07_aliasDup_fixed`), F_msgOrder (376a366: the success message is sorted;
+`C07_msgOrder_fixed`).  Both are now part of `C07_order_indep`, which needs no condition on the alias map any more.
 Findings (the unchanged code violates the property; witness theorems below):
-  F_aliasDup       – two parameters aliased to one placeholder: which one is used varies
-  F_msgOrder       – the success message lists the files in map order (log line only, not file bytes)
   F_embedderFirst  – `-getset`: a type processed before the shoot type it embeds: the second run differs from the first
   F_staleAllInOne  – `-file=` / `-type=*` with stale output: the stale all-in-one file is not shadowed by the overlay
 -/
@@ -33,18 +33,18 @@ open ShootVerif ShootVerif.DetOrder ShootVerif.GenState
 
 /-- headline: on well-formed inputs the composed run does not depend on the iteration orders -/
 theorem C07_order_indep (o₁ o₂ : Oracle) (i : Input) (h : DetOrder.WF i) : run o₁ i = run o₂ i := by
-  obtain ⟨⟨_, hHdr, hKv, hTab, hOut, hPass⟩, hInj, hSingle⟩ := h
-  unfold aliasInjective at hInj
+  obtain ⟨⟨_, hHdr, hKv, hTab, hOut, hPass⟩, hSingle⟩ := h
   unfold singleDecl at hSingle
   have perm2 : ∀ {α : Type} (s : String) (l : List α), (o₁.order s l).Perm (o₂.order s l) :=
     fun s l => (o₁.perm s l).trans (o₂.perm s l).symm
   have nodup1 : ∀ {ν : Type} (s : String) (l : Entries String ν), (keys l).Nodup → (keys (o₁.order s l)).Nodup :=
     fun s l hl => keys_nodup_perm (o₁.perm s l).symm hl
-  -- alias
-  have e2 : realPathParams (o₁.order "cookClient/asMap" i.alias) i.pathParams
-      = realPathParams (o₂.order "cookClient/asMap" i.alias) i.pathParams := by
-    apply realPathParams_perm (perm2 _ _)
-    exact (List.Perm.nodup_iff ((o₁.perm "cookClient/asMap" i.alias).map (fun x => x.2))).mpr hInj
+  -- alias (all inputs) and success message
+  have e2 : realPathParamsChecked (o₁.order "cookClient/asMap" i.alias) i.pathParams
+      = realPathParamsChecked (o₂.order "cookClient/asMap" i.alias) i.pathParams :=
+    realPathParamsChecked_perm (perm2 _ _) _
+  have e1 : successMessage (o₁.order "main/srcMap" i.outputs) = successMessage (o₂.order "main/srcMap" i.outputs) :=
+    successMessage_perm (perm2 _ _)
   -- parseHeaders
   have e3 : (fun k => DetOrder.get (putAll (o₁.order "parseHeaders/kvMap" i.kv) []) k)
       = (fun k => DetOrder.get (putAll (o₂.order "parseHeaders/kvMap" i.kv) []) k) := by
@@ -88,7 +88,7 @@ theorem C07_order_indep (o₁ o₂ : Oracle) (i : Input) (h : DetOrder.WF i) : r
       = (fun n => DetOrder.get (writeAll (o₂.order "main/srcMap" i.outputs) i.dir) n) := by
     funext n
     exact putAll_perm (perm2 _ _) (nodup1 _ _ hOut) i.dir n
-  simp only [run, e2, e3, e4, e5, e6, e7, e8, e9]
+  simp only [run, e1, e2, e3, e4, e5, e6, e7, e8, e9]
 
 /-- what is read back after the writes is exactly the generated content (and untouched files stay) -/
 theorem C07_writes (ord dir : Entries String String) (h : (keys ord).Nodup) (n : String) :
@@ -125,16 +125,16 @@ theorem C07_getGoFile_fixed :
     getGoFileBefore wInput.defs "T" = "a.go" ∧ getGoFileBefore wInput.defs.reverse "T" = "b.go" ∧
     (run oId wInput).goFiles = ["a.go"] ∧ (run oRev wInput).goFiles = ["a.go"] := by decide
 
-/-- F_aliasDup: `alias={a:id},{b:id}` – the placeholder `{id}` is filled from `a` or from `b` -/
-theorem C07_F_aliasDup_witness :
-    (run oId wInput).pathParams = ["b"] ∧ (run oRev wInput).pathParams = ["a"] := by decide
+/-- fixed by 62d8144 (was F_aliasDup): `alias={a:id},{b:id}` – the old last-writer-wins loop filled `{id}` from `a`
+    or from `b` depending on the order; now the run stops with a Fatal in every order -/
+theorem C07_aliasDup_fixed :
+    realPathParams wInput.alias ["id"] = ["b"] ∧ realPathParams wInput.alias.reverse ["id"] = ["a"] ∧
+    (run oId wInput).pathParams = none ∧ (run oRev wInput).pathParams = none := by decide
 
-/-- F_msgOrder: the files are the same, the success message is not -/
-theorem C07_F_msgOrder_witness :
-    (∀ n, (run oId wInput).file n = (run oRev wInput).file n) ∧ message oId wInput ≠ message oRev wInput := by
-  refine ⟨?_, by decide⟩
-  intro n
-  exact putAll_perm (List.reverse_perm _).symm (by decide) [] n
+/-- fixed by 376a366 (was F_msgOrder): the success message is sorted; only the `-v` debug line of LoadPackage still
+    shows a map order -/
+theorem C07_msgOrder_fixed :
+    (run oId wInput).message = (run oRev wInput).message ∧ debugLine oId wInput ≠ debugLine oRev wInput := by decide
 
 /-! ## files on disk -/
 
@@ -211,13 +211,13 @@ def xInput : Input :=
     outputs := [("t.shootmap.a.go", "A"), ("t.shootmap.b.go", "B")], dir := [("t.go", "src")] }
 
 example : DetOrder.WF xInput := by
-  refine ⟨⟨by decide, by decide, by decide, by decide, by decide, ?_⟩, by unfold aliasInjective; decide, by unfold singleDecl; decide⟩
+  refine ⟨⟨by decide, by decide, by decide, by decide, by decide, ?_⟩, by unfold singleDecl; decide⟩
   intro p hp
   simp only [xInput, List.mem_cons, List.not_mem_nil, or_false] at hp
   rcases hp with rfl | rfl <;> decide
 
 /-- and the run really goes through every site: both orders give this (non-trivial) result -/
-example : (run oId xInput).goFiles = ["a.go", "b.go"] ∧ (run oRev xInput).pathParams = ["userID", "n"] ∧
+example : (run oId xInput).goFiles = ["a.go", "b.go"] ∧ (run oRev xInput).pathParams = some ["userID", "n"] ∧
     (run oRev xInput).ptrPaths = ["E1", "E1.EE", "E2"] ∧ (run oId xInput).ptrPaths = ["E1", "E1.EE", "E2"] ∧
     (run oRev xInput).structFields = ["Name", "Size"] ∧ (run oId xInput).header "POST" "X-B" = some "2" := by decide
 
